@@ -673,6 +673,11 @@ def py_model(eng, st, name, A, n):
 # ------------------------------------------------------------------------------------------------
 def member_call(eng, n, st):
     from .symex import Unsupported, as_int, as_bool, refof
+    if n.get('handle_push'):
+        # lifetime (C16): a vector of non-owning handles must not receive a temporary that solely owns a new object
+        eng.oblige(st, 'II', 'handle-container-does-not-receive-a-temporary-that-solely-owns-its-object',
+                   z3.BoolVal(not n.get('dangling')), n.get('line'),
+                   note=f'the pushed handle is copied from the temporary {n.get("dangling")}' if n.get('dangling') else '')
     callee = n.c[0]
     args_n = [a for a in n.c[1:] if a.k != 'CXXDefaultArgExpr']
     outs = []
